@@ -74,6 +74,8 @@ def drive_unary(run, rng, tier):
                         fm.eigh(S, UPLO=uplo)
                     fm.eig(A)
                     fm.eigvals(A)
+                    if d > 1 and len(batch) >= 1:
+                        fm.eigvals(A, shear=True)
                     fm.eigvalsh(S)
                     if d > 1:
                         fm.eigvalsh(S, shear=True)
@@ -234,7 +236,7 @@ def _required():
         req += ["math:dddot[mode=(3, 3),parallel=%s]" % p, "math:cdya_ik[parallel=%s]" % p,
                 "math:cdya_il[parallel=%s]" % p, "math:cdya[parallel=%s]" % p]
     req += ["math:dya[mode=1]", "math:dya[mode=2]", "math:transpose[mode=1]", "math:transpose[mode=2]",
-            "math:majortranspose", "math:cross", "math:eigh", "math:eigh[UPLO=L,triangular-storage]", "math:eigh[UPLO=U,triangular-storage]", "math:eig", "math:eigvals", "math:eigvalsh[shear=False]",
+            "math:majortranspose", "math:cross", "math:eigh", "math:eigh[UPLO=L,triangular-storage]", "math:eigh[UPLO=U,triangular-storage]", "math:eig", "math:eigvals", "math:eigvals[shear=True]", "math:eigvalsh[shear=False]",
             "math:eigvalsh[shear=True]", "math:inplane", "math:identity", "math:reshape", "math:ravel",
             "math:solve_nd[n=1]", "math:solve_nd[n=2]", "math:rotation_matrix[dim=2,axis=-]",
             "math:rotation_matrix[dim=3,axis=0]", "math:rotation_matrix[dim=3,axis=1]",
